@@ -128,7 +128,8 @@ var recPool = ev.New("C03", "saltpool-model",
 		"Contains of a live salt true, of a never-added one false; expired salts may go either way. Non-trivial: a live salt was re-added after the pool "+
 		"held at least 1024 salts and an Add had pruned; distinct key = step classes").
 	Require("peak>=1024", "readd-live-after-prune", "readd-newest-live-after-pool-shrank-to-quarter", "readd-expired",
-		"readd-live-after->16384-later-salts", "readd-live-after->65536-later-salts", "readd-live-after-2^32ms-uptime")
+		"readd-live-after->16384-later-salts", "readd-live-after->65536-later-salts", "readd-live-after-2^32ms-uptime",
+		"contains-live", "add-after-lookup-of-a-present-salt")
 
 func TestSaltPoolModel(t *testing.T) {
 	const retention = 60 * time.Second // documented salt retention (docs/FIXES.md adaf1bd, ss2022/header.go)
@@ -141,266 +142,278 @@ func TestSaltPoolModel(t *testing.T) {
 	})
 	rapid.Check(t, func(rt *rapid.T) {
 		ops := rapid.SliceOfN(gen, 1, 30).Draw(rt, "ops")
-		var pool ss2022.SaltPool
-		base := time.Date(2026, 1, 1, 0, 0, 0, 0, time.UTC)
-		now := time.Duration(0)
-		type entry struct {
-			id    int
-			added time.Duration
-		}
-		var order []entry // successful adds in order (an id may occur again after it expired)
-		addedAt := map[int]time.Duration{}
-		next := 0
-		salt := func(id int) (s [32]byte) {
-			binary.BigEndian.PutUint64(s[:], uint64(id)*0x9e3779b97f4a7c15+1)
-			binary.BigEndian.PutUint64(s[24:], uint64(id))
-			return
-		}
-		live := func(id int) bool { a, ok := addedAt[id]; return ok && now < a+retention }
-		firstLive := 0 // the clock only moves forward, so the live entries are a suffix of order
-		liveCount := func() int {
-			for firstLive < len(order) && now >= order[firstLive].added+retention {
-				firstLive++
-			}
-			return len(order) - firstLive
-		}
-		labels := map[string]bool{}
-		var key []byte
-		peak, pruned, shrunk := 0, false, false
-		var lastAddIdx int // index in order of the most recent successful add
 		var hist []string
-		note := func(f string, a ...any) {
-			if len(hist) < 60 {
-				hist = append(hist, fmt.Sprintf(f, a...))
+		if v := guarded(200000, func() string { return fmt.Sprintf("pool history: %v", hist) }, func(failCase func(string, ...any)) {
+			var pool ss2022.SaltPool
+			base := time.Date(2026, 1, 1, 0, 0, 0, 0, time.UTC)
+			now := time.Duration(0)
+			type entry struct {
+				id    int
+				added time.Duration
 			}
-		}
-		fail := func(sig, f string, a ...any) {
-			rt.Fatalf("SIG=C03/%s %s | at +%v; history: %v", sig, fmt.Sprintf(f, a...), now, hist)
-		}
-		addNew := func() {
-			before := liveCount()
-			total := len(addedAt)
-			id := next
-			next++
-			if !pool.Add(base.Add(now), salt(id)) {
-				fail("saltpool-fresh-salt-refused", "Add of never-added salt #%d returned false", id)
+			var order []entry // successful adds in order (an id may occur again after it expired)
+			addedAt := map[int]time.Duration{}
+			next := 0
+			salt := func(id int) (s [32]byte) {
+				binary.BigEndian.PutUint64(s[:], uint64(id)*0x9e3779b97f4a7c15+1)
+				binary.BigEndian.PutUint64(s[24:], uint64(id))
+				return
 			}
-			addedAt[id] = now
-			order = append(order, entry{id, now})
-			lastAddIdx = len(order) - 1
-			if before+1 > peak {
-				peak = before + 1
+			live := func(id int) bool { a, ok := addedAt[id]; return ok && now < a+retention }
+			firstLive := 0 // the clock only moves forward, so the live entries are a suffix of order
+			liveCount := func() int {
+				for firstLive < len(order) && now >= order[firstLive].added+retention {
+					firstLive++
+				}
+				return len(order) - firstLive
 			}
-			_ = total
-		}
-		target := func(sel, c int) (int, bool) {
-			if len(order) == 0 {
-				return 0, false
+			labels := map[string]bool{}
+			var key []byte
+			peak, pruned, shrunk := 0, false, false
+			queriedLive := false // a lookup-only call found a salt that is present
+			var lastAddIdx int   // index in order of the most recent successful add
+			note := func(f string, a ...any) {
+				if len(hist) < 60 {
+					hist = append(hist, fmt.Sprintf(f, a...))
+				}
+				progressStep.Add(1)
+				progressWhat.Store(fmt.Sprintf(f, a...))
 			}
-			switch sel % 6 {
-			case 0:
-				return order[len(order)-1].id, true
-			case 1:
-				return order[max(len(order)-2, 0)].id, true
-			case 2:
-				return order[max(lastAddIdx-1, 0)].id, true
-			case 3: // oldest live
-				liveCount()
-				if firstLive < len(order) {
-					return order[firstLive].id, true
-				}
-				return order[0].id, true
-			case 4:
-				return order[c%len(order)].id, true
-			default: // an expired one if there is any
-				for i := range order {
-					e := order[(i+c)%len(order)]
-					if !live(e.id) {
-						return e.id, true
-					}
-				}
-				return order[c%len(order)].id, true
+			fail := func(sig, f string, a ...any) {
+				failCase("SIG=C03/%s %s | at +%v; history: %v", sig, fmt.Sprintf(f, a...), now, hist)
 			}
-		}
-		// composite steps are expanded into primitive ones
-		var xs []rawOp
-		for _, op := range ops {
-			switch {
-			case op.Kind == 12 && op.C%4 != 0: // (floods are expensive: a quarter of the draws)
-				xs = append(xs, rawOp{Kind: 4}, rawOp{Kind: 5, A: 0})
-				continue
-			case op.Kind == 12:
-				// flood probe: one salt, then more salts than any plausible cap within the same window, then the first one again
-				xs = append(xs, rawOp{Kind: 4}, rawOp{Kind: 0, A: 12 + op.A%8, B: op.B % 2}, rawOp{Kind: 5, A: 3}, rawOp{Kind: 5, A: 4, C: op.C}, rawOp{Kind: 5, A: 0})
-				continue
-			case op.Kind == 13:
-				// uptime probe: the first add fixes the pool's epoch; epoch + W + fine - lead: victim; +gap: another add; victim again
-				lead := at([]time.Duration{time.Second, 30 * time.Second, 59 * time.Second, 0, 60 * time.Second, 11 * time.Second}, op.A)
-				xs = append(xs, rawOp{Kind: 4}, rawOp{Kind: 20, T: at(uptimeAlphabet, op.B) + at(uptimeFine, op.C) - lead}, rawOp{Kind: 4},
-					rawOp{Kind: 2, A: 11 + op.C/16%4}, rawOp{Kind: 4}, rawOp{Kind: 5, A: 2}, rawOp{Kind: 5, A: 3})
-				continue
-			}
-			if op.Kind >= 10 {
-				// shrink probe: burst; a little later a small wave; wait until the burst has just run out; one Add (prunes the pool
-				// to a fraction of its peak); re-add the newest-before-that-Add, the newest, the oldest live
-				xs = append(xs, rawOp{Kind: 0, A: op.A % 7, B: op.B}, rawOp{Kind: 2, A: op.A / 7 % 4}, rawOp{Kind: 0, A: 7 + op.B%5}, rawOp{Kind: 3, A: 2, B: op.C % 5}, rawOp{Kind: 4},
-					rawOp{Kind: 5, A: 2}, rawOp{Kind: 5, A: op.C / 5 % 6, C: op.C}, rawOp{Kind: 5, A: 3})
-			} else {
-				xs = append(xs, op)
-			}
-		}
-		burstEnd := time.Duration(0) // instant of the last salt of the largest burst so far
-		burstMax := 0
-		for _, op := range xs {
-			switch {
-			case op.Kind <= 1: // burst
-				n := at([]int{1200, 1024, 300, 3000, 1025, 1023, 2000, 10, 256, 255, 2, 1, 16385, 20000, 16384, 17000, 16383, 70000, 18000, 16500}, op.A%(12+8*((op.C+op.B)%2)))
-				gap := at([]time.Duration{0, time.Microsecond, 10 * time.Millisecond}, op.B)
-				note("burst(%d, gap %v)", n, gap)
-				lc := liveCount()
-				for i := 0; i < n; i++ {
-					id := next
-					next++
-					if !pool.Add(base.Add(now), salt(id)) {
-						fail("saltpool-fresh-salt-refused", "Add of never-added salt #%d returned false (burst)", id)
-					}
-					addedAt[id] = now
-					order = append(order, entry{id, now})
-					now += gap
-				}
-				lastAddIdx = len(order) - 1
-				_ = lc
-				if n >= burstMax {
-					burstMax, burstEnd = n, order[len(order)-1].added
-				}
-				key = append(key, 'B')
-			case op.Kind <= 3: // advance
-				var d time.Duration
-				if op.Kind == 2 || len(order) == 0 {
-					d = at([]time.Duration{time.Second, 30 * time.Second, 60 * time.Second, 29 * time.Second, 31 * time.Second, 59 * time.Second, 60*time.Second - 1, 60*time.Second + 1,
-						61 * time.Second, 0, 1, 11 * time.Second, time.Millisecond, 60*time.Second - time.Millisecond, 59*time.Second + 500*time.Millisecond,
-						(1 << 32) * time.Millisecond, (1 << 31) * time.Millisecond, 400 * 24 * time.Hour}, op.A)
-				} else {
-					var anchor time.Duration
-					switch op.A % 3 {
-					case 0: // oldest live
-						anchor = order[0].added
-						for _, e := range order {
-							if live(e.id) {
-								anchor = e.added
-								break
-							}
-						}
-					case 1:
-						anchor = order[len(order)-1].added
-					default: // the last salt of the largest burst
-						anchor = burstEnd
-					}
-					d = anchor + retention + at([]time.Duration{0, -1, 1, -time.Second, time.Second}, op.B) - now
-					if d < 0 {
-						d = time.Second
-					}
-				}
-				note("+%v", d)
-				now += d
-				key = append(key, 'A')
-			case op.Kind == 20: // advance to an absolute instant relative to the first add
-				if len(order) == 0 {
-					continue
-				}
-				if d := order[0].added + op.T - now; d > 0 {
-					note("+%v", d)
-					now += d
-				}
-				key = append(key, 'U')
-			case op.Kind == 4: // one new salt
+			addNew := func() {
 				before := liveCount()
-				beforeModel := len(order)
-				addNew()
-				_ = beforeModel
-				// this Add pruned if something expired since the previous Add
-				if before < peak {
-					pruned = true
+				total := len(addedAt)
+				id := next
+				next++
+				if queriedLive {
+					labels["add-after-lookup-of-a-present-salt"] = true
 				}
-				if peak >= 1024 && before+1 <= peak/4 {
-					shrunk = true
+				if !pool.Add(base.Add(now), salt(id)) {
+					fail("saltpool-fresh-salt-refused", "Add of never-added salt #%d returned false", id)
 				}
-				note("add(#%d)", next-1)
-				key = append(key, 'n')
-			case op.Kind <= 7: // re-add
-				id, ok := target(op.A, op.C)
-				if !ok {
+				addedAt[id] = now
+				order = append(order, entry{id, now})
+				lastAddIdx = len(order) - 1
+				if before+1 > peak {
+					peak = before + 1
+				}
+				_ = total
+			}
+			target := func(sel, c int) (int, bool) {
+				if len(order) == 0 {
+					return 0, false
+				}
+				switch sel % 6 {
+				case 0:
+					return order[len(order)-1].id, true
+				case 1:
+					return order[max(len(order)-2, 0)].id, true
+				case 2:
+					return order[max(lastAddIdx-1, 0)].id, true
+				case 3: // oldest live
+					liveCount()
+					if firstLive < len(order) {
+						return order[firstLive].id, true
+					}
+					return order[0].id, true
+				case 4:
+					return order[c%len(order)].id, true
+				default: // an expired one if there is any
+					for i := range order {
+						e := order[(i+c)%len(order)]
+						if !live(e.id) {
+							return e.id, true
+						}
+					}
+					return order[c%len(order)].id, true
+				}
+			}
+			// composite steps are expanded into primitive ones
+			var xs []rawOp
+			for _, op := range ops {
+				switch {
+				case op.Kind == 12 && op.C%4 != 0: // (floods are expensive: a quarter of the draws)
+					xs = append(xs, rawOp{Kind: 4}, rawOp{Kind: 5, A: 0})
+					continue
+				case op.Kind == 12:
+					// flood probe: one salt, then more salts than any plausible cap within the same window, then the first one again
+					xs = append(xs, rawOp{Kind: 4}, rawOp{Kind: 0, A: 12 + op.A%8, B: op.B % 2}, rawOp{Kind: 5, A: 3}, rawOp{Kind: 5, A: 4, C: op.C}, rawOp{Kind: 5, A: 0})
+					continue
+				case op.Kind == 13:
+					// uptime probe: the first add fixes the pool's epoch; epoch + W + fine - lead: victim; +gap: another add; victim again
+					lead := at([]time.Duration{time.Second, 30 * time.Second, 59 * time.Second, 0, 60 * time.Second, 11 * time.Second}, op.A)
+					xs = append(xs, rawOp{Kind: 4}, rawOp{Kind: 20, T: at(uptimeAlphabet, op.B) + at(uptimeFine, op.C) - lead}, rawOp{Kind: 4},
+						rawOp{Kind: 2, A: 11 + op.C/16%4}, rawOp{Kind: 4}, rawOp{Kind: 5, A: 2}, rawOp{Kind: 5, A: 3})
 					continue
 				}
-				wasLive := live(id)
-				got := pool.Add(base.Add(now), salt(id))
-				note("readd(#%d live=%v)=%v", id, wasLive, got)
+				if op.Kind >= 10 {
+					// shrink probe: burst; a little later a small wave; wait until the burst has just run out; one Add (prunes the pool
+					// to a fraction of its peak); re-add the newest-before-that-Add, the newest, the oldest live
+					xs = append(xs, rawOp{Kind: 0, A: op.A % 7, B: op.B}, rawOp{Kind: 2, A: op.A / 7 % 4}, rawOp{Kind: 0, A: 7 + op.B%5}, rawOp{Kind: 3, A: 2, B: op.C % 5}, rawOp{Kind: 4},
+						rawOp{Kind: 5, A: 2}, rawOp{Kind: 5, A: op.C / 5 % 6, C: op.C}, rawOp{Kind: 5, A: 3})
+				} else {
+					xs = append(xs, op)
+				}
+			}
+			burstEnd := time.Duration(0) // instant of the last salt of the largest burst so far
+			burstMax := 0
+			for _, op := range xs {
 				switch {
-				case wasLive && got:
-					fail("saltpool-live-salt-added-twice", "salt #%d added at +%v was accepted again at +%v (%v later, retention 60s; live salts in the model: %d, peak %d)",
-						id, addedAt[id], now, now-addedAt[id], liveCount(), peak)
-				case wasLive:
-					labels["readd-live"] = true
-					if later := len(order) - 1 - func() int {
-						for i := len(order) - 1; i >= 0; i-- {
-							if order[i].id == id {
-								return i
-							}
+				case op.Kind <= 1: // burst
+					n := at([]int{1200, 1024, 300, 3000, 1025, 1023, 2000, 10, 256, 255, 2, 1, 16385, 20000, 16384, 17000, 16383, 70000, 18000, 16500}, op.A%(12+8*((op.C+op.B)%2)))
+					gap := at([]time.Duration{0, time.Microsecond, 10 * time.Millisecond}, op.B)
+					note("burst(%d, gap %v)", n, gap)
+					lc := liveCount()
+					for i := 0; i < n; i++ {
+						id := next
+						next++
+						if !pool.Add(base.Add(now), salt(id)) {
+							fail("saltpool-fresh-salt-refused", "Add of never-added salt #%d returned false (burst)", id)
 						}
-						return 0
-					}(); later > 16384 {
-						labels["readd-live-after->16384-later-salts"] = true
-						if later > 65536 {
-							labels["readd-live-after->65536-later-salts"] = true
-						}
-					}
-					if len(order) > 0 && now-order[0].added >= (1<<32)*time.Millisecond-61*time.Second {
-						labels["readd-live-after-2^32ms-uptime"] = true
-					}
-					if pruned {
-						labels["readd-live-after-prune"] = true
-					}
-					if shrunk && len(order) >= 2 && (id == order[len(order)-1].id || id == order[max(lastAddIdx-1, 0)].id || id == order[max(len(order)-2, 0)].id) {
-						labels["readd-newest-live-after-pool-shrank-to-quarter"] = true
-					}
-					key = append(key, 'r')
-				default:
-					labels["readd-expired"] = true
-					if got {
 						addedAt[id] = now
 						order = append(order, entry{id, now})
-						lastAddIdx = len(order) - 1
+						now += gap
 					}
-					key = append(key, 'e')
-				}
-			default: // query
-				id, ok := target(op.A, op.C)
-				if ok && live(id) {
-					if !pool.Contains(salt(id)) || !pool.TryContains(salt(id)) {
-						fail("saltpool-live-salt-not-contained", "Contains/TryContains(#%d) = false although it was added %v ago", id, now-addedAt[id])
+					lastAddIdx = len(order) - 1
+					_ = lc
+					if n >= burstMax {
+						burstMax, burstEnd = n, order[len(order)-1].added
 					}
-					labels["contains-live"] = true
+					key = append(key, 'B')
+				case op.Kind <= 3: // advance
+					var d time.Duration
+					if op.Kind == 2 || len(order) == 0 {
+						d = at([]time.Duration{time.Second, 30 * time.Second, 60 * time.Second, 29 * time.Second, 31 * time.Second, 59 * time.Second, 60*time.Second - 1, 60*time.Second + 1,
+							61 * time.Second, 0, 1, 11 * time.Second, time.Millisecond, 60*time.Second - time.Millisecond, 59*time.Second + 500*time.Millisecond,
+							(1 << 32) * time.Millisecond, (1 << 31) * time.Millisecond, 400 * 24 * time.Hour}, op.A)
+					} else {
+						var anchor time.Duration
+						switch op.A % 3 {
+						case 0: // oldest live
+							anchor = order[0].added
+							for _, e := range order {
+								if live(e.id) {
+									anchor = e.added
+									break
+								}
+							}
+						case 1:
+							anchor = order[len(order)-1].added
+						default: // the last salt of the largest burst
+							anchor = burstEnd
+						}
+						d = anchor + retention + at([]time.Duration{0, -1, 1, -time.Second, time.Second}, op.B) - now
+						if d < 0 {
+							d = time.Second
+						}
+					}
+					note("+%v", d)
+					now += d
+					key = append(key, 'A')
+				case op.Kind == 20: // advance to an absolute instant relative to the first add
+					if len(order) == 0 {
+						continue
+					}
+					if d := order[0].added + op.T - now; d > 0 {
+						note("+%v", d)
+						now += d
+					}
+					key = append(key, 'U')
+				case op.Kind == 4: // one new salt
+					before := liveCount()
+					beforeModel := len(order)
+					addNew()
+					_ = beforeModel
+					// this Add pruned if something expired since the previous Add
+					if before < peak {
+						pruned = true
+					}
+					if peak >= 1024 && before+1 <= peak/4 {
+						shrunk = true
+					}
+					note("add(#%d)", next-1)
+					key = append(key, 'n')
+				case op.Kind <= 7: // re-add
+					id, ok := target(op.A, op.C)
+					if !ok {
+						continue
+					}
+					wasLive := live(id)
+					got := pool.Add(base.Add(now), salt(id))
+					note("readd(#%d live=%v)=%v", id, wasLive, got)
+					switch {
+					case wasLive && got:
+						fail("saltpool-live-salt-added-twice", "salt #%d added at +%v was accepted again at +%v (%v later, retention 60s; live salts in the model: %d, peak %d)",
+							id, addedAt[id], now, now-addedAt[id], liveCount(), peak)
+					case wasLive:
+						labels["readd-live"] = true
+						if later := len(order) - 1 - func() int {
+							for i := len(order) - 1; i >= 0; i-- {
+								if order[i].id == id {
+									return i
+								}
+							}
+							return 0
+						}(); later > 16384 {
+							labels["readd-live-after->16384-later-salts"] = true
+							if later > 65536 {
+								labels["readd-live-after->65536-later-salts"] = true
+							}
+						}
+						if len(order) > 0 && now-order[0].added >= (1<<32)*time.Millisecond-61*time.Second {
+							labels["readd-live-after-2^32ms-uptime"] = true
+						}
+						if pruned {
+							labels["readd-live-after-prune"] = true
+						}
+						if shrunk && len(order) >= 2 && (id == order[len(order)-1].id || id == order[max(lastAddIdx-1, 0)].id || id == order[max(len(order)-2, 0)].id) {
+							labels["readd-newest-live-after-pool-shrank-to-quarter"] = true
+						}
+						key = append(key, 'r')
+					default:
+						labels["readd-expired"] = true
+						if got {
+							addedAt[id] = now
+							order = append(order, entry{id, now})
+							lastAddIdx = len(order) - 1
+						}
+						key = append(key, 'e')
+					}
+				default: // query
+					id, ok := target(op.A, op.C)
+					note("contains(#%d)", id)
+					if ok && live(id) {
+						queriedLive = true
+						if !pool.Contains(salt(id)) || !pool.TryContains(salt(id)) {
+							fail("saltpool-live-salt-not-contained", "Contains/TryContains(#%d) = false although it was added %v ago", id, now-addedAt[id])
+						}
+						labels["contains-live"] = true
+					}
+					if pool.Contains(salt(next+1000)) || pool.TryContains(salt(next+1000)) {
+						fail("saltpool-contains-unknown", "Contains of a never-added salt returned true")
+					}
+					key = append(key, 'q')
 				}
-				if pool.Contains(salt(next+1000)) || pool.TryContains(salt(next+1000)) {
-					fail("saltpool-contains-unknown", "Contains of a never-added salt returned true")
+				if lc := liveCount(); lc > peak {
+					peak = lc
 				}
-				key = append(key, 'q')
 			}
-			if lc := liveCount(); lc > peak {
-				peak = lc
+			if peak >= 1024 {
+				labels["peak>=1024"] = true
 			}
-		}
-		if peak >= 1024 {
-			labels["peak>=1024"] = true
-		}
-		ls := make([]string, 0, len(labels))
-		for l := range labels {
-			ls = append(ls, l)
-		}
-		nt := labels["readd-live-after-prune"] && peak >= 1024
-		recPool.Case(string(key), nt, ls...)
-		if nt {
-			recPool.Sample(map[string]any{"history": hist, "peak": peak})
+			ls := make([]string, 0, len(labels))
+			for l := range labels {
+				ls = append(ls, l)
+			}
+			nt := labels["readd-live-after-prune"] && peak >= 1024
+			recPool.Case(string(key), nt, ls...)
+			if nt {
+				recPool.Sample(map[string]any{"history": hist, "peak": peak})
+			}
+		}); v != "" {
+			rt.Fatalf("%s", v)
 		}
 	})
 }
